@@ -2202,6 +2202,29 @@ func (g *Gate) ensureInit(pkg *ssa.Package) {
 	}
 }
 
+// opaqueForeignPtr: a pointer to a struct type of another module without exported fields
+// (*regexp.Regexp, *strings.Replacer): the library cannot write through a copy of it.
+func (g *Gate) opaqueForeignPtr(t types.Type) bool {
+	pt, ok := t.Underlying().(*types.Pointer)
+	if !ok {
+		return false
+	}
+	n, ok := pt.Elem().(*types.Named)
+	if !ok || n.Obj().Pkg() == nil || strings.HasPrefix(n.Obj().Pkg().Path(), modPath) {
+		return false
+	}
+	st, ok := n.Underlying().(*types.Struct)
+	if !ok {
+		return false
+	}
+	for i := 0; i < st.NumFields(); i++ {
+		if st.Field(i).Exported() {
+			return false
+		}
+	}
+	return true
+}
+
 // isConstGlobal: the variable is never stored to outside its package
 // initialiser, nothing is stored through it, and its value is only read
 // (indexed, ranged over, measured, passed to side-effect-free library
@@ -2238,7 +2261,7 @@ func (g *Gate) isConstGlobal(gl *ssa.Global) bool {
 				}
 				// stored as a value somewhere else: may be modified through the copy only for
 				// reference types
-				if isRefType(v.Type()) {
+				if isRefType(v.Type()) && !g.opaqueForeignPtr(v.Type()) {
 					return false
 				}
 			case *ssa.Phi:
